@@ -13,12 +13,13 @@ import re
 
 from ..explore import census as C
 from ..explore import histpool as HP
+from ..explore import sched as SCHED
 from ..explore.sched import Deadlock, Sched
 
 PID = "C15"
 LEVEL = "model_checking"
 TECHNIQUE = ("stateless model checking of real threads under a cooperative baton scheduler (sys.settrace call events in library code): "
-             "exhaustive enumeration of all schedules with <= p preemptions (iterative context bounding), each thread's result compared with its solo result")
+             "exhaustive enumeration of all schedules with <= p preemptions (iterative context bounding) at every library function entry and at every line of state-changing functions, each thread's result compared with its solo result")
 LEVEL_TEXT = ("Every schedule of 2 (and 3) encoding threads with at most one preemption at any library function-call boundary is executed on the real code; "
               "two preemptions exhaustively on the smallest documents in the thorough tier. Only specific preemption windows corrupt a result, so the schedule "
               "space has to be enumerated rather than stressed.")
@@ -76,10 +77,24 @@ def judge(names, res):
     return bad
 
 
+_LIGHT = None
+
+
 def eval_case(case: dict) -> dict:
+    global _LIGHT
     _init()
     names = case["docs"]
     mode = case["mode"]
+    if mode == "discover":
+        # which library functions change process-global state while this document is encoded?
+        if _LIGHT is None:
+            _LIGHT = C.make_light_fingerprint()
+        _SNAP.restore()
+        d = _docs(names)[0]
+        funcs = SCHED.discover_state_changing_functions(d.rtf_encode, _LIGHT)
+        _SNAP.restore()
+        return {"viol": [], "funcs": [list(f) for f in funcs], "evals": 1, "nt": False}
+    SCHED.set_line_funcs([(f[0], f[1]) for f in case.get("line_funcs") or []])
     if mode == "calibrate":
         res, counts, _ = run_schedule(names, 0, [])
         bad = judge(names, res)
@@ -119,9 +134,14 @@ def eval_case(case: dict) -> dict:
         if bad:
             # determinism: the same schedule must fail identically
             res2, _, _ = run_schedule(names, start, plan)
-            if [digest(r) for r in res2] != [digest(r) for r in res]:
-                return {"harness_error": f"schedule {plan} of {names} is not reproducible: {[digest(r) for r in res]} vs {[digest(r) for r in res2]}"}
             b = bad[0]
+            if [digest(r) for r in res2] != [digest(r) for r in res]:
+                # the wrong result is real (it was returned); that the same schedule from the restored pristine state
+                # gives another outcome means state outside rtflite's visible globals survives between encodes
+                viol.append({"klass": None, "sig": "interference-not-reproducible",
+                             "detail": f"docs={names} start={start} preemptions={plan}: thread {b[0]} ({b[1]}) returned {b[3]}, solo {b[4]}; repeating the same schedule "
+                                       f"gave {[digest(r) for r in res2]} (state leaks between encodes)"})
+                continue
             klass = "shared-colour-context-race" if all(x[2] for x in bad) else None
             viol.append({"klass": klass, "sig": f"interference-{klass}-{len(plan)}pre",
                          "detail": f"docs={names} start={start} preemptions={[(k, v, ) for k, v in plan]} at {sw}: thread {b[0]} ({b[1]}) returned {b[3]}, solo {b[4]}",
@@ -141,30 +161,40 @@ def eval_case(case: dict) -> dict:
 def plan(run):
     quick = run.tier == "quick"
     run.rule = ("threads encode pool documents (red 4x2 with title; blue/green paginated with footnote; coloured multi-section; figure with coloured title; plain; grouped); "
-                "for every ordered pair (quick: 4 seed-rotated ordered pairs + one document with itself + one triple; thorough: all 30 pairs, 4 self-pairs, 6 triples) every schedule with 0 or 1 preemption at every library call boundary; 3 threads "
+                "for every ordered pair (quick: 3 seed-rotated ordered pairs + one document with itself + one triple; thorough: all 30 pairs, 4 self-pairs, 6 triples) every schedule with 0 or 1 preemption at every library call boundary; 3 threads "
                 "with <= 1 preemption; every schedule with 2 preemptions inside the first W call boundaries of both threads (W=60 quick for one seed-rotated pair, 250 thorough for all pairs); thorough: 2 preemptions exhaustively on the two smallest documents. states = schedules executed; transitions = preemptions executed; non-trivial = distinct schedules in which a preemption was actually executed")
-    run.assumptions = ["scheduling points are call events of frames whose code file is under <repo>/src/rtflite/",
+    run.assumptions = ["scheduling points are entries of functions whose code file is under <repo>/src/rtflite/, plus every line of the library "
+                       "functions that a discovery pass observed to change process-global state (census / name bindings) while encoding",
                        "between schedules the process-global state is restored by the generic census snapshot (asserted)"]
     docs = DOCS
     all_pairs = list(itertools.permutations(DOCS[:4], 2))
     if quick:
         # seed-rotated subset of ordered pairs, each explored exhaustively
         pairs = [all_pairs[(run.seed * 3 + k * 5) % len(all_pairs)] for k in range(3)]
-        pairs = list(dict.fromkeys(pairs + [("paged", "multi")]))[:4]
+        pairs = list(dict.fromkeys(pairs + [("paged", "multi")]))[:3]
         same = ["red"]
         trips = [("red", "paged", "multi")]
     else:
         pairs = list(itertools.permutations(DOCS, 2))
         same = DOCS[:4]
         trips = list(itertools.permutations(DOCS[:3]))
+    line_funcs = {}
+
+    def on_disc(r):
+        for f in r.get("funcs", []):
+            line_funcs[(f[0], f[1])] = f[2]
+
+    run.layer("discover-state-changing-functions", "mc.props.c15:eval_case", [{"mode": "discover", "docs": [d]} for d in DOCS], chunk=1, on_result=on_disc)
+    LF = [[f, l, q] for (f, l), q in sorted(line_funcs.items())]
+    run.extra["state_changing_functions_with_line_granular_points"] = [f"{f}:{l} {q}" for f, l, q in LF]
     counts = {}
 
     def on_cal(r):
         if "counts" in r:
             counts[r["_case"]["docs"][0]] = r["counts"][0]
 
-    run.layer("calibrate", "mc.props.c15:eval_case", [{"mode": "calibrate", "docs": [d]} for d in DOCS] +
-              [{"mode": "calibrate", "docs": list(p)} for p in pairs], chunk=1, on_result=on_cal)
+    run.layer("calibrate", "mc.props.c15:eval_case", [{"mode": "calibrate", "docs": [d], "line_funcs": LF} for d in DOCS] +
+              [{"mode": "calibrate", "docs": list(p), "line_funcs": LF} for p in pairs], chunk=1, on_result=on_cal)
     run.extra["call_boundaries_per_encode"] = dict(counts)
     outcomes = set()
 
@@ -178,18 +208,18 @@ def plan(run):
     for a, b in pairs:
         na = counts.get(a, 0)
         for lo in range(1, na + 1, step):
-            cases.append({"mode": "one", "docs": [a, b], "start": 0, "thread": 0, "lo": lo, "hi": min(na + 1, lo + step), "targets": [1]})
+            cases.append({"mode": "one", "docs": [a, b], "start": 0, "thread": 0, "lo": lo, "hi": min(na + 1, lo + step), "targets": [1], "line_funcs": LF})
     for a in same:  # same document twice (two equal-valued documents encoded concurrently)
         na = counts.get(a, 0)
         for lo in range(1, na + 1, step):
-            cases.append({"mode": "one", "docs": [a, a], "start": 0, "thread": 0, "lo": lo, "hi": min(na + 1, lo + step), "targets": [1]})
+            cases.append({"mode": "one", "docs": [a, a], "start": 0, "thread": 0, "lo": lo, "hi": min(na + 1, lo + step), "targets": [1], "line_funcs": LF})
     run.layer("2-threads-1-preemption", "mc.props.c15:eval_case", cases, chunk=1, total=len(cases), on_result=on_res)
     # three threads, one preemption, every start thread and switch target
     cases = []
     for perm in trips:
         n0 = counts.get(perm[0], 0)
         for lo in range(1, n0 + 1, step):
-            cases.append({"mode": "one", "docs": list(perm), "start": 0, "thread": 0, "lo": lo, "hi": min(n0 + 1, lo + step), "targets": [1, 2]})
+            cases.append({"mode": "one", "docs": list(perm), "start": 0, "thread": 0, "lo": lo, "hi": min(n0 + 1, lo + step), "targets": [1, 2], "line_funcs": LF})
     run.layer("3-threads-1-preemption", "mc.props.c15:eval_case", cases, chunk=1, total=len(cases), on_result=on_res)
     # two preemptions inside the start-up window of both threads (where process-wide registries, contexts and
     # caches are initialised): thread 0 preempted at p <= W, thread 1 preempted at q <= W, back to thread 0
@@ -197,13 +227,13 @@ def plan(run):
     wpairs = [[("red", "paged"), ("paged", "red"), ("multi", "red")][run.seed % 3]] if quick else list(itertools.permutations(DOCS[:4], 2))
     for a, b in dict.fromkeys(wpairs):
         cases = [{"mode": "two", "docs": [a, b], "start": 0, "thread": 0, "other": 1, "lo": lo, "hi": min(W + 1, lo + 3), "n_other": counts.get(b, 0),
-                  "q_lo": 1, "q_hi": W + 1} for lo in range(1, W + 1, 3)]
+                  "q_lo": 1, "q_hi": W + 1, "line_funcs": LF} for lo in range(1, W + 1, 3)]
         run.layer(f"2-threads-2-preemptions-startup-window-{a}-{b}", "mc.props.c15:eval_case", cases, chunk=1, total=len(cases), on_result=on_res)
     if not quick:
         small = sorted(counts, key=counts.get)[:2]
         for a, b in itertools.permutations(small, 2):
             na, nb = counts[a], counts[b]
-            cases = [{"mode": "two", "docs": [a, b], "start": 0, "thread": 0, "other": 1, "lo": lo, "hi": min(na + 1, lo + 4), "n_other": nb}
+            cases = [{"mode": "two", "docs": [a, b], "start": 0, "thread": 0, "other": 1, "lo": lo, "hi": min(na + 1, lo + 4), "n_other": nb, "line_funcs": LF}
                      for lo in range(1, na + 1, 4)]
             run.layer(f"2-threads-2-preemptions-{a}-{b}", "mc.props.c15:eval_case", cases, chunk=1, total=len(cases), on_result=on_res)
     run.extra["distinct_outcomes"] = len(outcomes)
